@@ -66,6 +66,15 @@ def tableGains (yearOf : Int → Int) (r : SecResult) : CG :=
 /-- `capital_gains_year_totals_keys_sorted` -/
 def CG.sortedYears (g : CG) : List Int := sortDays g.years
 
+/-! ### what the totals must be (spec side) -/
+
+/-- the capital gains of the rows settling in year `y`, in row order -/
+def gainsIn (yearOf : Int → Int) (rows : List GRow) (y : Int) : List Rat :=
+  (rows.filter (fun r => r.gain.isSome && decide (yearOf r.day = y))).map (fun r => r.gain.getD 0)
+
+/-- all capital gains of the rows -/
+def allGains (rows : List GRow) : List Rat := rows.filterMap (·.gain)
+
 /-! ### display -/
 
 /-- the value a dollar cell shows: `curr_str` -/
